@@ -116,6 +116,9 @@ func genYXPCase(r *Rng) Case {
 	if r.Chance(30) {
 		ex["a2.augwhen"] = mk("a2", false)
 	}
+	if r.Chance(25) { // in a grouping of m that nothing uses: an expression of the module all the same
+		ex["u.must"] = mk("m", false)
+	}
 	// the when of a uses / augment may read exactly like the when the node has of its own (both are kept: they are
 	// written in different places, possibly in modules that bind the prefixes differently)
 	same := func(own, handed string) {
@@ -157,7 +160,11 @@ func yxpTexts(c Case) []string {
 		"  typedef bt { " + typeOr("b.tpath") + " }\n" +
 		"  grouping bg {\n    leaf bl { type string;" + get("b.must", "must") + get("b.must2", "must") + get("b.when", "when") + " }\n" +
 		"    leaf br { " + typeOr("b.path") + " }\n  }\n  grouping kg { leaf bk { type string; } }\n}\n"
-	mm := "module m { namespace \"urn:m\"; prefix m; import b { prefix b; } import c { prefix y; } import d { prefix x; }\n" +
+	unused := ""
+	if _, ok := ex["u.must"]; ok {
+		unused = "  grouping ug { leaf ul { type string;" + get("u.must", "must") + " } }\n"
+	}
+	mm := "module m { namespace \"urn:m\"; prefix m; import b { prefix b; } import c { prefix y; } import d { prefix x; }\n" + unused +
 		"  container mtop {\n    uses b:bg" + usesBody(get("m.useswhen", "when")+refineBody(get("m.refmust", "must"))) + "\n    leaf ml { type string;" + get("m.must", "must") + get("m.must2", "must") + " }\n" +
 		"    leaf mt { type b:bt; }\n    leaf mr { " + typeOr("m.path") + " }\n" +
 		"    list mlist { key mk; leaf mk { type string;" + get("m.keymust", "must") + get("m.keywhen", "when") + " } leaf mv { type string; } }\n" +
